@@ -2,7 +2,7 @@
    [vm_compute] evaluation inside coqc run exactly the same function.
    A case is a list of numbers; the first is the case kind. *)
 From Coq Require Import NArith List Bool.
-From PDB Require Import Gen.Consts Model.IndexPage Model.Pipeline Model.Meta Model.Migrate Model.ValueTable Model.MultiTree Model.BTreeIter Model.BTreeCheck Model.Wal Model.WalCodec.
+From PDB Require Import Gen.Consts Model.IndexPage Model.Pipeline Model.Meta Model.Migrate Model.ValueTable Model.MultiTree Model.BTreeIter Model.BTreeCheck Model.Wal Model.WalCodec Model.StorageCheck.
 Import ListNotations.
 Open Scope N_scope.
 
@@ -481,6 +481,22 @@ Definition run_c13 (l : list N) : list N :=
   | _ => err_marker
   end.
 
+(* ---- kind 14: raw dump of one value table. 14 filled free_head n (class next)* with class 0 free | 1 head |
+   2 part | 3 size | 4 unreadable.  Output: ok free-list-length number-of-chains slots-in-chains ---- *)
+Fixpoint parse_slots (n : nat) (l : list N) : list rslot :=
+  match n, l with
+  | S n', c :: nx :: r =>
+      (if c =? 0 then RFree nx else if c =? 1 then RHead nx else if c =? 2 then RPart nx else if c =? 3 then RSize else RBad) :: parse_slots n' r
+  | _, _ => []
+  end.
+Definition run_c14 (l : list N) : list N :=
+  match l with
+  | fl :: fh :: n :: rest =>
+      let r := check_table {| filled := fl; free_head := fh; slots := parse_slots (N.to_nat n) rest |} in
+      [if t_ok r then 1 else 0; N.of_nat (length (t_free r)); N.of_nat (length (t_chains r)); N.of_nat (length (concat (t_chains r)))]
+  | _ => err_marker
+  end.
+
 Definition dispatch (l : list N) : list N :=
   match l with
   | 19 :: rest => run_c19 rest
@@ -488,6 +504,7 @@ Definition dispatch (l : list N) : list N :=
   | 17 :: rest => run_c17 rest
   | 9 :: rest => run_c09 rest
   | 13 :: rest => run_c13 rest
+  | 14 :: rest => run_c14 rest
   | 12 :: rest => run_c12 rest
   | 4 :: rest => run_c04_tree rest
   | 10 :: rest => run_c10 rest
